@@ -11,10 +11,10 @@
 #include <stdarg.h>
 #include "hcommon.h"
 
-enum { PG_SPAWN, PG_ATTR, PG_DETACH, PG_MUTEX_STATIC, PG_COND, PG_BARRIER, PG_SPIN, PG_ONCE, PG_KEYS, PG_SELF, PG_EXIT, PG_MIX, PG_KEYS_ALL, PG_TRYLOCK, PG_RETCODES, PG_KEYS_MANY, PG_SLEEPS, PG_N };
+enum { PG_SPAWN, PG_ATTR, PG_DETACH, PG_MUTEX_STATIC, PG_COND, PG_BARRIER, PG_SPIN, PG_ONCE, PG_KEYS, PG_SELF, PG_EXIT, PG_MIX, PG_KEYS_ALL, PG_TRYLOCK, PG_RETCODES, PG_KEYS_MANY, PG_SLEEPS, PG_KEYS_SPARSE, PG_N };
 static const char * const pg_name[] = { "spawn tree (NULL attr)", "spawn with attribute objects (default-init, stack size)", "detached threads (attribute and pthread_detach)",
   "counter under a PTHREAD_MUTEX_INITIALIZER mutex first used by all threads at once", "condition-variable hand-off (static initialisers)", "barrier phases",
-  "spin-lock counter", "pthread_once", "keys with destructors", "pthread_self / pthread_equal", "pthread_exit from nested frames", "mixed: keys + mutex + yield + usleep(0)", "keys with destructors, every thread stores a value under every key", "trylock / timedlock on a mutex held by the creator", "return codes of init/destroy/attr/yield/sleep calls", "18 keys without destructors: a thread reads NULL under every key it has not stored under, also after storing under the neighbouring keys (4 threads one after the other, then concurrent ones)", "threads measure their own usleep(400000) and nanosleep(0.999999999 s): neither returns early" };
+  "spin-lock counter", "pthread_once", "keys with destructors", "pthread_self / pthread_equal", "pthread_exit from nested frames", "mixed: keys + mutex + yield + usleep(0)", "keys with destructors, every thread stores a value under every key", "trylock / timedlock on a mutex held by the creator", "return codes of init/destroy/attr/yield/sleep calls", "18 keys without destructors: a thread reads NULL under every key it has not stored under, also after storing under the neighbouring keys (4 threads one after the other, then concurrent ones)", "threads measure their own usleep(400000) and nanosleep(0.999999999 s): neither returns early", "70 keys, five destructor functions, every thread stores under a sparse set of keys (20, 37, 66, ...): each destructor sees exactly its own keys' values" };
 typedef struct { int pg, n, W, K; } prog_t;
 #define MAXP 200
 static prog_t P[2][MAXP]; static int NP[2];
@@ -86,6 +86,22 @@ static void * t_many(void * a) {
   for (int j = 0; j < NMANY; j++) sum += (long)pthread_getspecific(many[j]);
   return (void *)(stale ? -stale : sum);
 }
+/* sparse keys with destructors */
+enum { NSP = 70 };
+static pthread_key_t spk[NSP]; static volatile long sp_sum[5], sp_cnt[5];
+static void spd0(void * v) { pthread_mutex_lock(&smtx); sp_sum[0] += (long)v; sp_cnt[0]++; pthread_mutex_unlock(&smtx); }
+static void spd1(void * v) { pthread_mutex_lock(&smtx); sp_sum[1] += (long)v; sp_cnt[1]++; pthread_mutex_unlock(&smtx); }
+static void spd2(void * v) { pthread_mutex_lock(&smtx); sp_sum[2] += (long)v; sp_cnt[2]++; pthread_mutex_unlock(&smtx); }
+static void spd3(void * v) { pthread_mutex_lock(&smtx); sp_sum[3] += (long)v; sp_cnt[3]++; pthread_mutex_unlock(&smtx); }
+static void spd4(void * v) { pthread_mutex_lock(&smtx); sp_sum[4] += (long)v; sp_cnt[4]++; pthread_mutex_unlock(&smtx); }
+static void (* const SPD[5])(void *) = { spd0, spd1, spd2, spd3, spd4 };
+static void * t_sparse(void * a) {
+  long me = (long)a; static const int sets[3][4] = { { 20, -1, -1, -1 }, { 37, 66, -1, -1 }, { 3, 17, 48, 69 } };
+  for (int j = 0; j < 4; j++) { int k = sets[me % 3][j]; if (k >= 0) pthread_setspecific(spk[k], (void *)(long)(1000 * (me + 1) + k)); }   /* key j of NSP has destructor j % 5 */
+  sched_yield();
+  long s = 0; for (int j = 0; j < 4; j++) { int k = sets[me % 3][j]; if (k >= 0) s += (long)pthread_getspecific(spk[k]); }
+  return (void *)s;
+}
 static int in_reference_mode;
 static long long now_ns(void) { struct timespec t; if (in_reference_mode) clock_gettime(CLOCK_REALTIME, &t); else mv_clock_read(&t); return (long long)t.tv_sec * 1000000000LL + t.tv_nsec; }
 static void * t_sleeps(void * a) {
@@ -149,6 +165,10 @@ static void program(int pg, int n, char * log, size_t logn) {
     { long mainstale = 0; for (int j = 0; j < NMANY; j++) if (pthread_getspecific(many[j]) != NULL) mainstale++; logf_("kc=%d;main_stale=%ld;", kc, mainstale); }
     for (int j = 0; j < NMANY; j++) pthread_key_delete(many[j]); break; }
   case PG_SLEEPS: for (long i = 0; i < n; i++) pthread_create(&th[i], NULL, t_sleeps, (void *)i); for (int i = 0; i < n; i++) { pthread_join(th[i], &r); logf_("slept%d=%ld;", i, (long)r); } break;
+  case PG_KEYS_SPARSE: { int kc = 0; for (int j = 0; j < NSP; j++) kc += pthread_key_create(&spk[j], SPD[j % 5]);
+    for (long i = 0; i < n; i++) pthread_create(&th[i], NULL, t_sparse, (void *)i); for (int i = 0; i < n; i++) { pthread_join(th[i], &r); logf_("s%d=%ld;", i, (long)r); }
+    logf_("kc=%d;", kc); for (int d = 0; d < 5; d++) logf_("d%d=%ld/%ld;", d, sp_cnt[d], sp_sum[d]);
+    for (int j = 0; j < NSP; j++) pthread_key_delete(spk[j]); break; }
   case PG_RETCODES: {
     pthread_attr_t a; size_t ss = 0; int ds = -1; pthread_cond_t c; pthread_barrier_t b; pthread_key_t k; pthread_spinlock_t sp; pthread_mutexattr_t ma; int ty = -1;
     logf_("ai=%d;", pthread_attr_init(&a)); logf_("ass=%d;", pthread_attr_setstacksize(&a, 262144)); { int q = pthread_attr_getstacksize(&a, &ss); logf_("ags=%d/%zu;", q, ss); }
